@@ -83,6 +83,11 @@ def build_inputs(tier, rng, limit_depth):
             inputs.append({"id": "cor%d:%s" % (k, op), "sql": c, "class": "any"}); k += 1
     for i, g in enumerate(lexical_garbage(rng, 120 if nq else 100000)):
         inputs.append({"id": "lex%d" % i, "sql": g, "class": "lexical"})
+        if i % 3 == 0:
+            # the same failure behind a long run of blanks / blank lines / tabs (locations must not depend on what a
+            # pooled tokenizer located before)
+            pre = rng.choice([" " * 12, " " * 40, "\n\n\n   ", "\t\t\t", "  \n" + " " * 24])
+            inputs.append({"id": "lexpre%d" % i, "sql": pre + g, "class": "lexical"})
     # malformed stream: byte soup / punctuation soup
     for i in range(30 if nq else 300):
         n = rng.randint(1, 12)
@@ -196,13 +201,28 @@ def attribute(an, ob, kind, stage=None, epname=None):
     return sorted(out)
 
 
-def run_sweep(inputs, timeout=2400):
-    inp = "".join(json.dumps(i) + "\n" for i in inputs)
-    p = common.vh(["errsweep"], input=inp, timeout=timeout)
-    outs = [json.loads(l) for l in p.stdout.splitlines() if l.strip()]
+def run_sweep(inputs, timeout=2400, shards=8):
+    """the sweep in parallel worker processes (contiguous shards keep the input order inside a shard)"""
+    from concurrent.futures import ThreadPoolExecutor
+    binp = common.stage_harness()
+    n = max(1, (len(inputs) + shards - 1) // shards)
+    parts = [inputs[i:i + n] for i in range(0, len(inputs), n)]
+    def one(part):
+        inp = "".join(json.dumps(i) + "\n" for i in part)
+        return common.run([binp, "errsweep"], input=inp, timeout=timeout)
+    with ThreadPoolExecutor(max_workers=shards) as ex:
+        ps = list(ex.map(one, parts))
+    outs = []
+    for p in ps:
+        outs += [json.loads(l) for l in p.stdout.splitlines() if l.strip()]
     for o in outs:
         o["eps"] = o.get("eps") or []
-    return outs, p
+    class P: pass
+    agg = P()
+    agg.returncode = max([p.returncode for p in ps] or [0])
+    agg.stderr = "".join(p.stderr[-1500:] for p in ps if p.returncode != 0)
+    agg.stdout = ""
+    return outs, agg
 
 
 def run(tier):
@@ -337,10 +357,27 @@ def run(tier):
         for i, sh in pairs:
             bysh.setdefault(sh, []).append(i)
         shl = sorted(bysh)
-        body = ("From Coq Require Import List NArith Bool.\nFrom GV Require Import Model.ErrFlow Gen.ErrSites.\nImport ListNotations.\nLocal Open Scope N_scope.\n"
-                "Definition cases : list (oshape * list N) :=\n  [%s].\n" % ";\n   ".join("(%s, [%s])" % (errflow.coq_shape(sh), "; ".join(str(i) for i in bysh[sh])) for sh in shl) +
-                "Definition bad := Eval vm_compute in bad_cases (shape_case_ok err_table) 0 cases.\nPrint bad.\n")
-        coq_ok, out, err = common.coq_cases("c13_shapes", body)
+        # evaluated in parallel shards (one coqc each); indices are mapped back to positions in shl
+        from concurrent.futures import ThreadPoolExecutor
+        nsh = 8
+        chunks = [list(range(k, len(shl), nsh)) for k in range(nsh)]
+        def shard(k):
+            idx = chunks[k]
+            if not idx:
+                return True, "bad = [] : list N", ""
+            body = ("From Coq Require Import List NArith Bool.\nFrom GV Require Import Model.ErrFlow Gen.ErrSites.\nImport ListNotations.\nLocal Open Scope N_scope.\n"
+                    "Definition cases : list (oshape * list N) :=\n  [%s].\n" % ";\n   ".join("(%s, [%s])" % (errflow.coq_shape(shl[j]), "; ".join(str(i) for i in bysh[shl[j]])) for j in idx) +
+                    "Definition bad := Eval vm_compute in bad_cases (shape_case_ok err_table) 0 cases.\nPrint bad.\n")
+            return common.coq_cases("c13_shapes_%d" % k, body)
+        with ThreadPoolExecutor(max_workers=nsh) as ex:
+            rs = list(ex.map(shard, range(nsh)))
+        coq_ok = all(r[0] for r in rs)
+        err = "".join(r[2][-600:] for r in rs if not r[0])
+        badpos = []
+        if coq_ok:
+            for k, r in enumerate(rs):
+                badpos += [chunks[k][j] for j in common.parse_nlist(r[1])]
+        out = "bad = [%s] : list N" % "; ".join(str(j) for j in sorted(badpos))
         if coq_ok:
             coq_bad = [(i, shl[j]) for j in common.parse_nlist(out) for i in bysh[shl[j]] if not errflow.produces(an, i, list(shl[j]))] or \
                       [(bysh[shl[j]][0], shl[j]) for j in common.parse_nlist(out)]
